@@ -189,13 +189,55 @@ def iter_items(file, src, toks, lo, hi, parent=None):
         k = e1 + 1
 
 
+EXPANDED = '@expanded'      # pseudo file: the crate after macro expansion by rustc itself (run on a scratch copy)
+_expanded_cache = {}
+
+
+def expanded_text(root):
+    """`cargo +nightly rustc --lib --no-default-features -- -Zunpretty=expanded` on a scratch copy of root (cached per process)."""
+    import os, shutil, subprocess, tempfile
+    if root in _expanded_cache:
+        return _expanded_cache[root]
+    d = tempfile.mkdtemp(prefix='specs-verif.expand.', dir='/var/tmp')
+    try:
+        for name in ('src', 'Cargo.toml', 'Cargo.lock', 'specs-derive'):
+            src = os.path.join(root, name)
+            if os.path.isdir(src):
+                shutil.copytree(src, os.path.join(d, name))
+            elif os.path.exists(src):
+                shutil.copy(src, os.path.join(d, name))
+        # examples/benches/tests are not copied: drop their manifest sections
+        toml = open(os.path.join(d, 'Cargo.toml')).read()
+        out, keep = [], True
+        for line in toml.splitlines():
+            m = re.match(r'^\[+([^\]]+)\]+', line)
+            if m:
+                sec = m.group(1).strip()
+                keep = sec in ('package', 'dependencies', 'features') or sec.startswith('package.')
+            if keep:
+                out.append(line)
+        open(os.path.join(d, 'Cargo.toml'), 'w').write('\n'.join(out).replace('autobenches = false', 'autobenches = false\nautoexamples = false\nautotests = false') + '\n')
+        env = dict(os.environ, CARGO_NET_OFFLINE='true', CARGO_TARGET_DIR=os.path.join(d, 'target'))
+        p = subprocess.run(['cargo', '+nightly', 'rustc', '--offline', '--lib', '--no-default-features', '--', '-Zunpretty=expanded'],
+                           cwd=d, env=env, capture_output=True, text=True, timeout=1200)
+        if p.returncode != 0 or 'mod join' not in p.stdout:
+            raise LostAnchor('macro expansion by rustc failed: ' + p.stderr[-400:])
+        _expanded_cache[root] = p.stdout
+        return p.stdout
+    finally:
+        shutil.rmtree(d, ignore_errors=True)
+
+
 class Source:
     _cache = {}
 
     def __init__(self, root, file):
         self.file = file
-        with open(root + '/' + file, encoding='utf-8') as f:
-            self.src = f.read()
+        if file == EXPANDED:
+            self.src = expanded_text(root)
+        else:
+            with open(root + '/' + file, encoding='utf-8') as f:
+                self.src = f.read()
         self.toks = lex(self.src)
 
     @classmethod
